@@ -8,6 +8,7 @@ TEXT = {
  "C05": ("model_checking", "After every call the written lines (bag, tags as sets), header, placeholders and back-references of the real Gfa must equal those of the text-level Step of Gfa.tla (exact removal closure, dropped mentions, rename substitution); histories enumerated exhaustively by TLC up to the depth bound plus random ones.", "5 C05"),
  "C08": ("model_checking", "FailStutters is an action property of MC_Gfa checked by TLC; in every validated trace an event whose call raised must have an observation digest identical to the previous one (full projection: lines, references, back-references, header, version, names, lookups, topology).", "5 C08"),
  "C09": ("model_checking", "UniqueIds invariant on the spec; on every recorded state the name lists and line()/segment()/try_get_line() for every identifier of the universe are compared with the document; add/rename onto a used identifier must return NotUniqueError.", "5 C09"),
+ "C01": ("exploration", "Doc.tla: valid documents generated in TLA+ from a line catalogue x tag spelling variants, writer normal form Canon(doc) as a set of allowed bags; TLC enumerates documents x validation levels x version modes x entry points (string, list, file LF/CRLF/no final newline); the records written by gfapy (str, to_file, second round) are compared by TLC with Canon; seeded random documents with tags of every datatype.", "5 C01"),
  "C03": ("model_checking", "MC_Arrival: TLC enumerates every valid document (subset of the catalogue within size bounds, validity decided in TLA+) and every arrival order, checks confluence on the specification, and every order is replayed with add_line, observed after every delivery and validated against the document functions; strict documents are also compared by the digest of the complete object graph across orders (TracePerm).", "5 C03"),
  "C04": ("exploration", "Lex.tla recognisers written from the GFA grammars; TLC enumerates all short strings over per-datatype alphabets, single-point mutations of valid strings, line-level arity/tag combinations and document-level rule violations; every case is offered to gfapy at validation levels 1-3 and TLC (TraceLex) compares acceptance with the grammar verdict. Bounded language equality, not a proof.", "5 C04"),
  "C06": ("exploration", "Convert.tla pure functions with round-trip laws checked by TLC; every enumerated L/C/E/P/O case (all orientations, asymmetric CIGARs, offsets, self-links, paths) converted by gfapy at line and graph level and compared by TLC with the specification; output must load at vlevel 3.", "5 C06"),
@@ -26,7 +27,7 @@ TEXT = {
 
 
 # properties whose checks are finished and reviewed; everything else is listed as not yet claimed
-RELEASED = ["C02", "C03", "C04", "C05", "C06", "C07", "C08", "C09", "C10", "C11", "C12", "C13", "C14", "C15", "C16", "C18", "C19", "C20"]
+RELEASED = ["C01", "C02", "C03", "C04", "C05", "C06", "C07", "C08", "C09", "C10", "C11", "C12", "C13", "C14", "C15", "C16", "C18", "C19", "C20"]
 
 
 def main():
